@@ -6,7 +6,9 @@ correspondence: every built-in command (CSV libraries) and the harness' test com
                 real Program.from_source + run() (stub bodies logging execution and side effects) vs the model's load + pre-pass
 oracles:        well-formed models are accepted and run; every injected fault is rejected with its specific error carrying the line of the
                 offending command/argument, with nothing executed and no effect performed; every spelling of a number as text is a Number
-                (and text that is none is not); user-defined Parameter kinds refining one another as declared output / wanted kind (oracle only)
+                (and text that is none is not); user-defined Parameter kinds refining one another as declared output / wanted kind (oracle only);
+                every parameter x the "nothing" of every kind (0, 0.0, -0.0, "", [], {}, False, None, ()) and values only the programming interface delivers
+                (None, Python tuples, type objects, Command objects), from a command file and through add_command, for required / optional / undeclared parameters
 """
 import os
 
@@ -319,6 +321,186 @@ def kind_hierarchies(ctx, tmp, env):
                         ctx.fail("ill-formed model (%s wants %s, %s delivers %s): rejected (%s) only after executing %r" % (ccmd, wk, pcmd, pk, outcome, ran), desc)
 
 
+# the "nothing" of every kind: what a tidy `if not value` takes for "not given".  A value of the wrong kind is of the wrong kind whether or not it is falsy.
+FALSY = [0, 0.0, -0.0, "", [], {}, False, None, ()]
+SOURCE_FALSY = [0, 0.0, -0.0, "", []]          # those a command file can deliver ({} is written like []; False arrives as the text "False")
+CMD = Name("Tok")                              # through add_command: the Command object itself (op addobj)
+API_ONLY = [(1, 2), float, CMD]                # values no command file delivers (None and () are among the falsy ones)
+PNV = "ParameterNotValid"
+
+
+def kind_verdict(p, v):
+    """None: v is of the kind p declares; an error class: it is not, and that is the specific error; "?": the property text does not decide (a Boolean
+    given to a Number, a number or the empty text given as a Path, an empty Python tuple as a Tuple, kinds defined by a plug-in) - no case is built"""
+    from mpilot import params as P
+    cls, t = type(p), type(v)
+    if cls is P.NumberParameter:
+        return None if t in (int, float) else "?" if t is bool else PNV
+    if cls is P.BooleanParameter:
+        return None if t in (bool, int) else "?" if t is float else PNV          # (the only int tried is 0: one of the true/false/0/1 forms)
+    if cls is P.PathParameter:
+        return "?" if t in (int, float, str) else PNV
+    if cls is P.ResultParameter:
+        return "?" if t is Name else "ResultDoesNotExist" if t is str else PNV    # (the only text tried is "": no result carries that name)
+    if cls is P.ListParameter:
+        return (None if len(v) == 0 else "?") if t in (list, tuple) else PNV
+    if cls is P.TupleParameter:
+        return None if (t is dict or (t is list and not v)) else "?" if (t is tuple and not v) else PNV
+    if cls is P.DataTypeParameter:
+        return "?" if t is type else PNV
+    return "?"
+
+
+def kind_cases(p, values, item_values):
+    """(value, verdict, offending value) for parameter p: each of `values` itself and - for lists - one-item lists of `item_values` the item kind rules out"""
+    from mpilot import params as P
+    out = [(v, kind_verdict(p, v), v) for v in values]
+    if type(p) is P.ListParameter:
+        out += [([v], kind_verdict(p.value_type, v), v) for v in item_values if kind_verdict(p.value_type, v) not in (None, "?")]
+    return [c for c in out if c[1] != "?"]
+
+
+def with_arg(call, name, v, first=False):
+    rest = [(n, x) for n, x in call[2] if n != name]
+    return (call[0], call[1], ([(name, v)] + rest) if first else (rest + [(name, v)]))
+
+
+def nothing_values_from_source(ctx, classes, calls, env, tmp):
+    """every parameter of every command given the "nothing" of every kind in a command file: accepted exactly when that value is of the declared kind
+    ([] for a list or a tuple, 0 / 0.0 for a number, 0 for a boolean), otherwise the specific error on the argument's line before anything runs.
+    Full matrix for the first parameter of each declaration (kind, item kind, required or not) and in the thorough tier; two values in rotation for the others"""
+    out, seen, k = [], set(), 0
+    for cls in classes:
+        call = calls.get(cls.name)
+        if call is None:
+            continue
+        for name, p in cls.inputs.items():
+            cases = kind_cases(p, SOURCE_FALSY, [0, ""])
+            if not cases:
+                continue
+            key = (prog.enc_spec(p), p.required)
+            if not (ctx.thorough or key not in seen):
+                k += 1
+                cases = [cases[(2 * k) % len(cases)], cases[(2 * k + 1) % len(cases)]]
+            seen.add(key)
+            for v, verdict, _ in cases:
+                c = with_arg(call, name, v)
+                cmds = producers(env) + [c]
+                sc = Scenario(cmds, wd=tmp, libs=LIBS)
+                out.append((sc, None if verdict is None else (verdict, sc.lines[len(cmds) - 1][1][len(c[2]) - 1]), "%s:%s.%s" % ("nothing-value" if verdict else "nothing-value-ok", cls.name, name)))
+    return out
+
+
+def run_api(sc):
+    """progrun.run_impl for scenarios whose ops are ("add", command) and ("run",), with the argument values handed to add_command as the Python values they
+    are (progrun hands True / False over as the words a command file holds): references by name, CMD as the Command object that carries that name"""
+    import contextlib, io
+    from collections import OrderedDict
+    from mpilot.program import Program
+    rec = progrun.Recorder()
+    _, classes = progrun.library_classes(sc.libs)
+    res = {"ops": [], "log": rec.log, "reads": rec.reads, "effects": rec.effects, "program": None, "finished": [], "str_errors": []}
+    with progrun.stubbed(classes, rec):
+        try:
+            p = Program.from_source(sc.source, libraries=sc.libs, working_dir=sc.wd)
+        except BaseException as e:
+            res["load"], res["exc"] = progrun.classify(e), e
+            return res
+        res["load"], res["program"] = "ok", p
+
+        def py(v):
+            if isinstance(v, Name):
+                return p.commands[v.s] if v is CMD else v.s
+            return [py(x) for x in v] if isinstance(v, list) else v
+        for op in sc.ops:
+            try:
+                with contextlib.redirect_stdout(io.StringIO()):
+                    if op[0] == "run":
+                        p.run()
+                    else:
+                        p.add_command(p.find_command_class(op[1][1]), op[1][0], OrderedDict((n, py(v)) for n, v in op[1][2]))
+                res["ops"].append("ok")
+            except BaseException as e:
+                res["ops"].append(progrun.classify(e))
+                res["exc"] = e
+        res["finished"] = [n for n, c in p.commands.items() if c.is_finished]
+    return res
+
+
+def api_values(ctx, model, classes, calls, env, tmp):
+    """models built with Program.add_command, which takes any Python value: every parameter of every command (required or optional) given the "nothing" of every
+    kind, None, a Python tuple, a type object, a Command object; undeclared parameters given None and other values.  Accepted exactly when the value is of the
+    declared kind; otherwise rejected - by add_command or by run() - with the specific error naming the value / the parameter, before anything has executed
+    or been written.  None is always tried; the full matrix for the first parameter of each declaration and in the thorough tier, rotation for the others"""
+    from mpilot import params as P
+    items, seen, k = [], set(), 0
+    base = producers(env) + [("Eff", "W", [])]
+
+    def item(cls, c, verdict, offender, tag, pname):
+        # (the model is asked where the protocol renders the value as it is: it writes True / False as the words of a command file and references as names)
+        faithful = not any(x is CMD or isinstance(x, bool) or (isinstance(x, list) and any(y is CMD or isinstance(y, bool) for y in x)) for _, x in c[2])
+        sc = Scenario(base, ops=[("add", c), ("run",)], wd=tmp, libs=LIBS)
+        items.append((sc, verdict, offender, "%s:%s.%s" % (tag, cls.name, pname), faithful, pname))
+    for cls in classes:
+        call = calls.get(cls.name)
+        if call is None:
+            continue
+        for name, p in cls.inputs.items():
+            cases = kind_cases(p, FALSY + API_ONLY, [0, "", None, {}, ()])
+            if not cases:
+                continue
+            key = (prog.enc_spec(p), p.required)
+            if not (ctx.thorough or key not in seen):
+                k += 1
+                others = [c for c in cases if c[0] is not None]
+                cases = [c for c in cases if c[0] is None] + [others[k % len(others)]]
+            seen.add(key)
+            for v, verdict, offender in cases:
+                item(cls, with_arg(call, name, v, first=(k % 2 == 1)), verdict, offender, "api-value" if verdict else "api-value-ok", name)
+        # an undeclared parameter is undeclared whatever it is given - also a name that differs from a declared one in case only
+        extra = [None] + (FALSY[:7] + [(), 1, "x", float, CMD] if ctx.thorough or cls.name in ("S", "Sum") else [(FALSY[:7] + [(), 1, "x", float])[len(items) % 11]])
+        for j, v in enumerate(extra):
+            bogus = ("Bogus", "metadata", "Infieldnames")[j % 3]
+            item(cls, with_arg(call, bogus, v, first=(j % 2 == 1)), None if cls.allow_extra_inputs else "NoSuchParameter", bogus, "api-undeclared", bogus)
+    asked = [it for it in items if it[4]]
+    answers = dict((id(it[0]), a) for it, a in zip(asked, model.ask([it[0].protocol(classes) for it in asked])))
+    for sc, verdict, offender, tag, _, pname in items:
+        before_tree = tree(tmp)
+        res = run_api(sc)
+        ctx.case(sc.source + repr(sc.ops), sample={"kind": tag, "ops": repr(sc.ops)[:300], "impl": progrun.impl_text(res)[:200], "model": answers.get(id(sc), "-")[:200]})
+        ctx.count("kind:" + tag.split(":")[0])
+        desc = dict(sc.describe(), parameter=pname, value=repr(offender))
+        if id(sc) in answers:
+            d = progrun.compare(res, answers[id(sc)])
+            if d:
+                ctx.disagree("load+prepass:" + tag, desc, d[0][:400], d[1][:400])
+        if res["load"] != "ok" or len(res["ops"]) != 2:
+            ctx.fail("%s: the well-formed part failed: %s %s" % (tag, res["load"], res["ops"]), desc)
+            continue
+        added, ran = res["ops"]
+        first = added if added != "ok" else ran
+        exc = res.get("exc")
+        if verdict is None:
+            if first != "ok":
+                ctx.fail("well-formed model built with add_command (%s = %r, %s) rejected: %s" % (pname, offender, tag, first), desc)
+            continue
+        if first == "ok":
+            ctx.fail("ill-formed model built with add_command accepted (%s = %r is %s; expected %s): run() executed %r, effects %r" % (
+                pname, offender, "no declared parameter" if verdict == "NoSuchParameter" else "not of the declared kind", verdict, res["log"], res["effects"]), desc)
+        elif not first.startswith("mp:%s:" % verdict):
+            ctx.fail("ill-formed model built with add_command (%s = %r): reported %s, expected %s (executed before: %r)" % (pname, offender, first, verdict, res["log"] if added == "ok" else []), desc)
+        elif verdict == PNV and offender is not CMD and not (type(getattr(exc, "value", None)) is type(offender) and exc.value == offender):
+            ctx.fail("ParameterNotValid names the value %r; the offending value is %r" % (getattr(exc, "value", None), offender), desc)
+        elif verdict == "NoSuchParameter" and getattr(exc, "parameter", None) != offender:
+            ctx.fail("NoSuchParameter names the parameter %r; the undeclared one is %r" % (getattr(exc, "parameter", None), offender), desc)
+        if first != "ok" and added == "ok" and (res["log"] or res["effects"]):
+            ctx.fail("ill-formed model built with add_command (%s = %r): rejected (%s) only after executing %r (effects %r)" % (pname, offender, first, res["log"], res["effects"]), desc)
+        if added != "ok" and res["program"] is not None and sc.ops[0][1][0] in res["program"].commands:
+            ctx.fail("add_command refused the command (%s) and kept it in the program" % added, desc)
+        if tree(tmp) != before_tree:
+            ctx.fail("ill-formed model built with add_command (%s): files or folders appeared: %r" % (tag, sorted(set(tree(tmp)) - set(before_tree))[:5]), desc)
+
+
 def tree(root):
     out = []
     for d, dirs, files in os.walk(root):
@@ -341,11 +523,13 @@ def run(ctx):
     classes = sorted(classes, key=lambda c: c.name)
     scs = []      # (scenario, expectation)   expectation: None = well-formed, else (error class, line)
     reps = 1 if not ctx.thorough else 4
+    calls = {}
     for cls in classes:
         if cls.name in ("NoOut",):
             continue
         for _ in range(reps):
             call = valid_call(rng, cls, env)
+            calls[cls.name] = call
             cmds = producers(env) + [call]
             sc = Scenario(list(cmds), wd=tmp, libs=LIBS)
             scs.append((sc, None, "valid:" + cls.name))
@@ -372,6 +556,7 @@ def run(ctx):
                 sc = Scenario(cmds[:-1] + [(call[0], call[1], call[2] + [("Bogus", 1)])], wd=tmp, libs=LIBS)
                 scs.append((sc, None, "extra-allowed:" + cls.name))
     scs += number_spellings(rng, [c for c in classes if c.name != "NoOut"], env, tmp)
+    scs += nothing_values_from_source(ctx, classes, calls, env, tmp)
     # faults at program level, at every position of valid models
     for _ in range(ctx.budget(6, 200)):
         n = rng.randrange(2, 6)
@@ -569,6 +754,7 @@ def run(ctx):
             ctx.fail("a model naming a file that no longer exists (it did when an earlier model ran) gave %s %s, expected PathDoesNotExist" % (second["load"], second["ops"]), sc.describe())
         elif second["log"] or second["effects"]:
             ctx.fail("a model naming a file that no longer exists is rejected only after executing %r" % second["log"], sc.describe())
+    api_values(ctx, model, classes, calls, env, tmp)
     eems2_faults(ctx, model, tmp, env, classes)
     kind_hierarchies(ctx, tmp, env)
     return ctx.finish(
